@@ -90,6 +90,7 @@ type Obligation struct {
 	Where   string
 	Clause  string
 	Cover   bool // must be SAT
+	Seq     int
 	// results
 	Status  string // unsat | sat | unknown | timeout | error
 	Solver  string
@@ -181,6 +182,7 @@ type Ctx struct {
 	deferred [][]deferredCall
 	callOrd map[string]int
 	trustedUsed map[string]bool
+	oblNames map[string]int
 	unroll int
 	ctxExtra
 }
@@ -227,6 +229,14 @@ func (c *Ctx) trust(s string) {
 func (c *Ctx) addObl(st *State, name, kind, goal, where, clause string, props []string) {
 	if goal == "true" {
 		// still count it as discharged trivially: keep for naming stability
+	}
+	if c.oblNames == nil {
+		c.oblNames = map[string]int{}
+	}
+	c.oblNames[name]++
+	if n := c.oblNames[name]; n > 1 {
+		// the same program point reached from several incoming paths
+		name = fmt.Sprintf("%s~%d", name, n)
 	}
 	o := &Obligation{Name: c.fi.Key + "/" + name, Kind: kind, Func: c.fi.Key, Assume: untag(st.pc), Goal: goal,
 		Decls: c.decls, Where: where, Clause: clause, Props: props}
